@@ -1217,10 +1217,16 @@ class FileStorage(
 
         for oid, userial in blobs:
             tmp = mktemp(dir=self.fshelper.temp_dir)
-            with self.openCommittedBlobFile(oid, userial) as sfp:
-                with open(tmp, 'wb') as dfp:
-                    cp(sfp, dfp)
-            self._blob_storeblob(oid, self._tid, tmp)
+            try:
+                with self.openCommittedBlobFile(oid, userial) as sfp:
+                    with open(tmp, 'wb') as dfp:
+                        cp(sfp, dfp)
+                self._blob_storeblob(oid, self._tid, tmp)
+            except BaseException:
+                # Don't leave a (partial) copy behind in the blob directory.
+                if os.path.exists(tmp):
+                    os.remove(tmp)
+                raise
 
         return tindex
 
